@@ -277,7 +277,16 @@ class YncaConnection:
             self._protocol._disconnect_callback = None
 
         if self._readerthread:
-            self._readerthread.close()
+            if threading.current_thread() is self._readerthread:
+                # Called from within a callback, so on the reader thread itself, which can not
+                # wait for (join) itself. Stop delivering messages, tell the reader loop to stop
+                # and close the port; the thread ends when the callback returns.
+                self._message_callbacks.clear()
+                with self._readerthread._lock:
+                    self._readerthread.alive = False
+                    self._readerthread.serial.close()
+            else:
+                self._readerthread.close()
 
     def raw(self, raw_data: str):
         if self._protocol:
